@@ -2,7 +2,7 @@
 # try_seeded.sh <seeded-id> <check-id> [...]: apply the seeded patch to a scratch worktree of /repo's
 # HEAD (/tmp/wt-mut), run the quick checks against it (POLYSIM_REPO), undo. /repo is never touched.
 id=$1; shift
-wt=/tmp/wt-try
+wt=${TRY_WT:-/tmp/wt-try}
 if [ ! -d $wt ]; then git -C /repo worktree add --detach $wt HEAD >/dev/null 2>&1 || exit 2; fi
 git -C $wt checkout -q -- . ; git -C $wt checkout -q --detach $(git -C /repo rev-parse HEAD)
 git -C $wt apply /verif/seeded/$id/patch.diff || { echo "patch does not apply"; exit 2; }
